@@ -3,7 +3,10 @@ From RV Require Export Base.Util Base.IntStr Model.CtlPlane.
 
 Inductive cp_op := OpInit | OpFinalize.
 Inductive cp_state := SPdep (d : pdep) | SCdep (d : cdep).
-Record cp_in := { ci_op : cp_op; ci_partitioned : bool; ci_wait_resume : bool; ci_fault : fault; ci_state : cp_state }.
+Record cp_in := { ci_op : cp_op; ci_partitioned : bool; ci_wait_resume : bool; ci_fault : fault; ci_state : cp_state;
+                  ci_stable_gone : bool (* canary style, Finalize: the stable Deployment does not exist any more *) }.
+Definition cfinalize (i : cp_in) (d : cdep) : outcome * cdep :=
+  if ci_stable_gone i then cdep_finalize_gone (ci_fault i) d else cdep_finalize (ci_partitioned i) (ci_wait_resume i) (ci_fault i) d.
 Record cp_obs := { co_panic : bool; co_err : bool; co_claimed : bool; co_paused : bool; co_recreate : bool; co_strategy_anno : bool; co_label : bool;
                    co_canaries : list bool; co_created_ok : bool }.
 Definition case := (cp_in * cp_obs)%type.
@@ -19,7 +22,7 @@ Definition corresponds (c : case) : bool :=
     outcome_matches m o && Bool.eqb (pd_claimed d') (co_claimed o) && Bool.eqb (pd_paused d') (co_paused o) && Bool.eqb (pd_recreate d') (co_recreate o) &&
     Bool.eqb (pd_strategy_anno d') (co_strategy_anno o) && Bool.eqb (pd_label d') (co_label o)
   | SCdep d =>
-    let '(m, d') := match ci_op i with OpInit => cdep_initialize (ci_fault i) d | OpFinalize => cdep_finalize (ci_partitioned i) (ci_wait_resume i) (ci_fault i) d end in
+    let '(m, d') := match ci_op i with OpInit => cdep_initialize (ci_fault i) d | OpFinalize => cfinalize i d end in
     outcome_matches m o && Bool.eqb (cd_claimed d') (co_claimed o) && Bool.eqb (cd_paused d') (co_paused o) &&
     list_eqb Bool.eqb (cd_canaries d') (co_canaries o) && co_created_ok o
   end.
@@ -43,6 +46,15 @@ Definition finalize_ok_means_released (c : case) : bool :=
     | SCdep d => negb (co_claimed o) && forallb negb (co_canaries o)
     end
   end.
+(* "where the policy is to wait -- every pod is updated and ready, on every attempt including retries": a canary-style Finalize
+   with the WaitResume policy succeeds only on a promoted Deployment, from whatever state an earlier attempt left behind
+   (theorem C11_canary_deployment_finalize_done_means_promoted) *)
+Definition wait_resume_means_promoted (c : case) : bool :=
+  let '(i, o) := c in
+  match ci_op i, ci_state i with
+  | OpFinalize, SCdep d => if ci_wait_resume i && negb (ci_stable_gone i) && negb (co_err o) && negb (co_panic o) then cdep_promoted (ci_partitioned i) (cd_status d) else true
+  | _, _ => true
+  end.
 (* a failed API call is reported: with a fault injected at a call the operation really makes, the result is an error *)
 Definition fault_is_reported (c : case) : bool :=
   let '(i, o) := c in
@@ -50,7 +62,7 @@ Definition fault_is_reported (c : case) : bool :=
   | SPdep d, OpInit => Bool.eqb (match fst (pdep_initialize (ci_fault i) d) with Failed => true | Done => false end) (co_err o)
   | SPdep d, OpFinalize => Bool.eqb (match fst (pdep_finalize (ci_partitioned i) (ci_fault i) d) with Failed => true | Done => false end) (co_err o)
   | SCdep d, OpInit => Bool.eqb (match fst (cdep_initialize (ci_fault i) d) with Failed => true | Done => false end) (co_err o)
-  | SCdep d, OpFinalize => Bool.eqb (match fst (cdep_finalize (ci_partitioned i) (ci_wait_resume i) (ci_fault i) d) with Failed => true | Done => false end) (co_err o)
+  | SCdep d, OpFinalize => Bool.eqb (match fst (cfinalize i d) with Failed => true | Done => false end) (co_err o)
   end.
 
 Definition judge (c : case) : list verdict :=
@@ -58,7 +70,10 @@ Definition judge (c : case) : list verdict :=
   [ if corresponds c then VOk else VMismatch;
     clause "C09_control_plane_no_panic" (negb (co_panic o));
     clause "C11_finalize_succeeds_only_on_a_released_workload" (finalize_ok_means_released c);
+    clause "C11_wait_resume_finalize_succeeds_only_on_a_promoted_workload" (wait_resume_means_promoted c);
     clause "C05_finalize_succeeds_only_on_a_released_workload" (finalize_ok_means_released c);
+    (* the BatchRelease gives up its finalizer after a successful Finalize: nothing it created may still need it *)
+    clause "C18_finalize_success_leaves_nothing_that_needs_the_batchrelease" (finalize_ok_means_released c);
     clause "C06_failed_api_call_is_not_reported_as_success" (co_panic o || fault_is_reported c) ].
 
 Definition tag (c : case) : string :=
